@@ -199,7 +199,7 @@ func TestC02FEP(t *testing.T) {
 		cfg := walkCfg{node: nc, steps: rapid.IntRange(10, 50).Draw(rt, "steps")}
 		r, _, err := fepWalk(ch, cfg)
 		if err != nil {
-			rt.Fatalf("INCONCLUSIVE: %v", err)
+			fatal(rt, "INCONCLUSIVE: %v", err)
 		}
 		defer r.cleanup()
 		r.drain()
@@ -229,7 +229,7 @@ func TestC10FEP(t *testing.T) {
 		cfg := walkCfg{node: nc, steps: rapid.IntRange(8, 30).Draw(rt, "steps"), viaGRPC: true}
 		r, _, err := fepWalk(ch, cfg)
 		if err != nil {
-			rt.Fatalf("INCONCLUSIVE: %v", err)
+			fatal(rt, "INCONCLUSIVE: %v", err)
 		}
 		defer r.cleanup()
 		r.drain()
